@@ -341,7 +341,50 @@ def prelude(tier):
     res["solver_s"] = time.time() - t0
     res["summary"] = f"log10 conversion lemma: {res['discharged']}/18 unsat; integer breakpoints 10^k - B_k = {[10**k - b for k, b in enumerate(ib, 1)]}"
     _matrix_probe(res)
+    _extreme_text_probe(res)
     return res
+
+
+def _extreme_text_probe(res):
+    """The longest texts: doubles whose shortest repr has 17 significant digits, a sign and a three-digit exponent (24 characters) through
+    float_to_strings, and signed integers of 20 and more characters (19 digits and a sign; a sign followed by leading zeros) read from an
+    integer COLUMN of a file.  Concrete probes on the real library."""
+    import numpy as np
+    import os, shutil, tempfile
+    import bionumpy as bnp
+    from bionumpy.io.strops import float_to_strings
+    floats = [-1.2345678901234567e-300, -2.2250738585072014e-308, 1.7976931348623157e+308, -1.7976931348623157e+308, -4.9406564584124654e-324,
+              1.2345678901234567e-300, -0.1, 123456.789, -9.999999999999999e+22, 5e-324]
+    for batch in ([f] for f in floats):
+        pass
+    for batch in [[f] for f in floats] + [floats, floats[::-1]]:
+        try:
+            got = [t.to_string() for t in float_to_strings(np.array(batch))]
+        except Exception as e:
+            got = ("raised", type(e).__name__)
+        exp = [str(float(f)) for f in batch]
+        if got != exp and len(res["violations"]) < 6:
+            res["violations"].append(dict(obligation="float-text-probe", inputs=dict(values=[repr(f) for f in batch]), output=repr(got),
+                                          why=f"[real run, concrete probe] float_to_strings({batch}) = {got}, shortest round-trip texts are {exp}"))
+    d = tempfile.mkdtemp(prefix="c18_cols_")
+    try:
+        texts = ["-1000000000000000000", "-9223372036854775807", "-00000000000000000042", "+00000000000000000042", "00000000000000000000007", "-5", "12"]
+        for rows in [[t] for t in texts] + [texts[:3], [texts[0], "-5"], ["7", texts[2], texts[0]], texts]:
+            path = os.path.join(d, "ints.bed")
+            with open(path, "w") as fh:
+                for t in rows:
+                    fh.write(f"chr1\t{t}\t5\n")
+            try:
+                got = [int(v) for v in bnp.open(path).read().start]
+            except Exception as e:
+                got = ("raised", type(e).__name__)
+            exp = [int(t) for t in rows]
+            if got != exp and len(res["violations"]) < 8:
+                res["violations"].append(dict(obligation="long-integer-column-probe", inputs=dict(texts=rows), output=repr(got),
+                                              why=f"[real run, concrete probe] the start column {rows} of a BED file read as {got}, the texts mean {exp}"))
+    finally:
+        shutil.rmtree(d, ignore_errors=True)
+    res["summary"] += "; float_to_strings / long signed integer columns probed on extreme texts"
 
 
 def _matrix_probe(res):
